@@ -65,6 +65,13 @@ class C11(CheckBase):
                 which = rng.choice(dfswork.READ_CMDS + ['dump', 'type-binary', 'list', 'cat', 'info'])
                 case['cmd'] = dfswork.gen_read_command(rng, s, which)
                 extract = False
+                if rng.chance(0.3):
+                    # diagnostics switched on: stderr is busy long before anything fails, and the report of the failure
+                    # still has to arrive on it
+                    case['globals'] = [rng.choice(['--verbose', '--verbose', '--show-config'])]
+                    if rng.chance(0.4):
+                        # (the catalogue listing has diagnostics of its own: screen width, column layout)
+                        case['cmd'] = dfswork.gen_read_command(rng, s, 'cat')
             else:
                 case['cmd'] = [cmd, rng.choice(['out', 'out/', './out'])]
                 if rng.chance(0.3):
@@ -234,6 +241,10 @@ class C11(CheckBase):
                 out.violate('C11.a', '%s: exit status 0' % what, desc, atom)
             elif not r['stderr']:
                 out.violate('C11.a', '%s: exit status %d but nothing on stderr' % (what, r.code), desc, atom)
+            elif ref['stderr'] and ref['stderr'].startswith(r['stderr']):
+                # stderr carries what the fault-free run also prints there (diagnostic chatter) and not one byte more:
+                # the failure itself was not reported
+                out.violate('C11.a', '%s: exit status %d but stderr holds nothing the fault-free run does not print as well' % (what, r.code), desc, atom)
         if r.code == 0 and not same:
             out.violate('C11.b', '%s: exit status 0 but the output is incomplete or different (stdout %d of %d bytes; files %s)'
                         % (what, len(r['stdout']), len(ref['stdout']), 'same' if r['snapshot'] == ref['snapshot'] else 'differ'), desc, atom)
